@@ -17,7 +17,64 @@ class C12(PropBase):
             "Non-trivial = a schedule in which at least one aircraft expires or survives by less than a second; distinct by schedule.")
     assumptions = ["chrono wall clock is simulated by shifting the public time-stamp fields (DESIGN 4.3); margins of 0.5 s"]
 
+    def realtime(self, rep, run, rng, tier):
+        """the built binary fed in real time (stdin as the file): an aircraft is heard, a sweep runs while it is still young, it
+        grows older than delete_after in the same clock second, 40 more frames of another aircraft arrive - the sweep cadence counts
+        accepted frames, not clock seconds, so the silent aircraft is gone from the last table.  Late delivery can only make the row
+        older (a correct decoder still removes it): slow machines cannot raise a false alarm here."""
+        import subprocess, time
+        cli = core.build_cli(False)
+        for attempt in range(2 if tier == "quick" else 6):
+            a, b = 0x4C7000 + attempt, 0x4C7100 + attempt
+            fa = F.df17(5, a, F.me_ident(4, 3, F.callsign_codes("QUIET")))
+            fb = [gen.rand_frame(rng, rng.choice(["tc4", "tc19.1", "df11"]), b) for _ in range(54)]
+            p = subprocess.Popen([cli, "-s", "/dev/stdin", "-d", "1", "--update=-1", "-i", "e"], stdin=subprocess.PIPE, stdout=subprocess.PIPE,
+                                 stderr=subprocess.DEVNULL, env=core.ENV)
+            time.sleep(0.8)                 # the process is up and reading before the first frame is written
+            def at(frac, nxt=0):
+                now = time.time()
+                base = int(now) + (1 if (now % 1) > frac - 0.02 else 0)
+                return base + frac
+            t0 = at(0.40)
+            time.sleep(max(0, t0 - time.time()))
+            sec = int(t0)
+            p.stdin.write((fa + "\n").encode()); p.stdin.flush()
+            time.sleep(max(0, sec + 1.03 - time.time()))
+            p.stdin.write(("\n".join(fb[:14]) + "\n").encode()); p.stdin.flush()        # a sweep: the quiet aircraft is 0.6 s old
+            time.sleep(max(0, sec + 1.75 - time.time()))
+            p.stdin.write(("\n".join(fb[14:]) + "\n").encode()); p.stdin.flush()        # 40 frames: it is 1.35 s old now
+            p.stdin.close()
+            out = p.stdout.read().decode("utf-8", "replace")
+            p.wait(timeout=30)
+            rep.evaluations += 55; rep.traces += 1
+            screens = [x for x in out.split("\x1b[2J\x1b[H\x1b[3J") if x.strip()]
+            last = screens[-1] if screens else ""
+            if p.returncode != 0 or not screens:
+                self.fail(rep, f"the binary fed in real time exited with status {p.returncode} and printed {len(screens)} screens", {"ops": [], "cli_args": ["-s", "/dev/stdin", "-d", "1"]})
+                return False
+            if ("%06X " % b) not in last:
+                raise core.Broken("real-time run: the talking aircraft is not in the last table", last[-300:])
+            row_a = next((l for l in last.split("\n") if l.startswith("%06X " % a)), None)
+            # judged by what the table itself says: the row is stale only if its last-contact age (LC, the last cell) has reached
+            # delete_after - on a machine so slow that the first frame was taken late the row may rightly still be there
+            stale = False
+            if row_a is not None:
+                try:
+                    stale = int(row_a.split()[-1]) >= 1
+                except ValueError:
+                    stale = False
+            if stale:
+                self.fail(rep, f"aircraft {a:06X}, silent for more than delete_after = 1 s, is still listed after 40 further accepted frames (real-time feed: "
+                               f"heard at x.40, a sweep at x+1.03, 40 frames at x+1.75)",
+                          {"ops": ["reset", gen.cfg_op(delete_after=1)] + gen.seg([fa]) + ["adv 630"] + gen.seg(fb[:14]) + ["adv 570"] + gen.seg(fb[14:]) + ["dump"],
+                           "note": "needs real time: the two later batches must be processed in the same clock second", "frames": [fa] + fb})
+                return False
+            rep.nontriv(("realtime", attempt))
+        return True
+
     def explore(self, rep, run, rng, tier, driver_ok):
+        if not self.realtime(rep, run, rng, tier):
+            return
         n = 120 if tier == "quick" else 3000
         for c in range(n):
             da = rng.choice([1, 5, 60, 600])
